@@ -7,7 +7,7 @@ import ast
 from ..absint import Sym, Itv
 from ..model import walk_shallow, call_name, is_self_attr, dotted_name, parent, ancestors, enclosing_function, AnalysisError, qualname
 from ..util import (has_call, find_calls, assigned_value, const_str, unparse, kw, arg_or_kw, enclosing_stmt,
-                    guards_of, call_tail, control_ancestors, name_bound, bound_names)
+                    guards_of, call_tail, control_ancestors, name_bound, bound_names, canon)
 from .. import mutate as M
 
 TECHNIQUE = "static analysis: interval abstract interpretation (open/closed bounds) of the generator's index and scaling arithmetic, structural permutation/swap rules, seed-truthiness scan over the package"
@@ -179,7 +179,24 @@ class Abs:
         if isinstance(e, ast.Name):
             if e.id in self.env:
                 return self.env[e.id]
+            fn = getattr(self, "fn", None)
+            if fn is not None:
+                ds = assigned_value(fn, e.id)
+                if len(ds) == 1:
+                    return self.ev(ds[0])
             raise Unproved(f"unknown name {e.id}")
+        if isinstance(e, ast.IfExp) and isinstance(e.test, ast.Compare) and len(e.test.ops) == 1 and (
+                (isinstance(e.test.ops[0], ast.Lt) and unparse(e.test.left) == unparse(e.body)) or
+                (isinstance(e.test.ops[0], ast.Gt) and unparse(e.test.comparators[0]) == unparse(e.body))):
+            # `v if v < B else w` (or `B > v`): the first arm is v cut off (open) at B; the result is the hull of both arms when they share their end points
+            bound_e = e.test.comparators[0] if isinstance(e.test.ops[0], ast.Lt) else e.test.left
+            v, bnd, w = self.ev(e.body), self.ev(bound_e), self.ev(e.orelse)
+            if bnd.lo == bnd.hi:
+                dh = v.hi - bnd.hi
+                cut = Itv(v.lo, bnd.hi, v.lo_open, True, v.integer) if (dh.is_const() and dh.c >= 0) else v
+                if cut.lo == w.lo and cut.hi == w.hi:
+                    return Itv(cut.lo, cut.hi, cut.lo_open and w.lo_open, cut.hi_open and w.hi_open, False)
+            raise Unproved(f"conditional not modelled: {unparse(e)}")
         if isinstance(e, ast.Call):
             nm = call_name(e)
             if nm == "next" and e.args and unparse(e.args[0]) == "self._randu":
@@ -191,6 +208,12 @@ class Abs:
                 return v.floor_int()
             if nm in ("float",) and len(e.args) == 1:
                 return self.ev(e.args[0])
+            if nm in ("math.nextafter", "nextafter") and len(e.args) == 2:
+                # nextafter(b, a) with a < b: the largest float below b -- inside [a, b)
+                b_, a_ = self.ev(e.args[0]), self.ev(e.args[1])
+                if a_.lo == a_.hi and b_.lo == b_.hi and self.pos(b_.lo - a_.lo):
+                    return Itv(a_.lo, b_.hi, False, True, False)
+                raise Unproved("nextafter towards a bound not known to be smaller")
             if nm == "len" and len(e.args) == 1:
                 key = f"len({unparse(e.args[0])})"
                 if key in self.env:
@@ -290,11 +313,24 @@ def weighted_choice(ctx, rule):
     for c in maps:
         found += 1
         f = c.args[0]
-        ok_shape = isinstance(f, ast.Attribute) and unparse(f.value) in x_txt and unparse(c.args[1]) == "accumulate(weights)"
-        strict = isinstance(f, ast.Attribute) and f.attr == "__lt__"
+        # the predicate applied to each cumulative weight c_k must be  U*tot < c_k  through the full comparison protocol:
+        #   partial(lt, U*tot)   or   lambda c: U*tot < c   (a bound float.__lt__ answers NotImplemented -- truthy -- for Fraction/Decimal weights)
+        how, strict, shape = unparse(f), False, False
+        if isinstance(f, ast.Call) and call_name(f) in ("partial", "functools.partial") and len(f.args) == 2 and not f.keywords:
+            op = unparse(f.args[0])
+            strict = op in ("lt", "operator.lt")
+            shape = unparse(f.args[1]) in x_txt
+        elif isinstance(f, ast.Lambda) and len(f.args.args) == 1 and isinstance(f.body, ast.Compare) and len(f.body.ops) == 1:
+            a, (b,) = f.body.left, f.body.comparators
+            v = f.args.args[0].arg
+            strict = (isinstance(f.body.ops[0], ast.Lt) and unparse(a) in x_txt and unparse(b) == v) or (isinstance(f.body.ops[0], ast.Gt) and unparse(b) in x_txt and unparse(a) == v)
+            shape = strict
+        elif isinstance(f, ast.Attribute) and f.attr.startswith("__"):
+            how += "  (bound dunder: NotImplemented is truthy)"
+        ok_shape = shape and unparse(c.args[1]) == "accumulate(weights)"
         ctx.ob(rule, RND, "CobaRandom.choice", c,
-               "weighted choice uses U*tot < cum_k (strict): with U closed at 0 a zero-weight prefix is never selected, and a hit exists because U*tot < tot",
-               ok_shape and strict, detail={"comparison": unparse(f), "U": "[0,1) closed at 0"})
+               "weighted choice uses U*tot < cum_k (strict, through the full comparison protocol): with U closed at 0 a zero-weight prefix is never selected, and a hit exists because U*tot < tot",
+               ok_shape and strict, detail={"comparison": how, "U": "[0,1) closed at 0"})
         p = parent(c)
         ok_first = isinstance(p, ast.Call) and call_name(p) == "compress" and unparse(p.args[0]) == "seq" and isinstance(parent(p), ast.Call) and call_name(parent(p)) == "next"
         ctx.ob(rule, RND, "CobaRandom.choice", c, "the first index passing the comparison is returned (next(compress(seq, ...)))", ok_first, stmt="first hit:" + unparse(c)[:80])
@@ -362,9 +398,15 @@ def r3_intervals(ctx):
     # --- random
     fn = ctx.fn(RND, "CobaRandom.random")
     A = Abs({"min": Itv(sym("min"), sym("min")), "max": Itv(sym("max"), sym("max"))}, positive=[sym("max") - sym("min")], nonneg=[])
+    A.fn = fn
     for r in _ret(fn):
         ok, d = A.check(r.value, sym("min"), sym("max"), hi_open=True)
         ctx.ob("C05.R3", RND, "CobaRandom.random", r, "random() in [min,max)", ok, detail=d)
+        # floating point: the rounded sum is compared with max before it is returned (the interval argument above is over the reals)
+        v = r.value
+        guarded = isinstance(v, ast.IfExp) and isinstance(v.test, ast.Compare) and len(v.test.ops) == 1 and canon(unparse(v.test)) == canon(f"{unparse(v.body)} < max") \
+            and unparse(v.orelse) in ("math.nextafter(max, min)", "nextafter(max, min)")
+        ctx.ob("C05.R3", RND, "CobaRandom.random", r, "rounding guard: a rounded sum that reaches max is replaced by the largest float below max", guarded, stmt="random() rounding guard")
     # --- randoms: element = min + diff*U through the conditional maps
     fn = ctx.fn(RND, "CobaRandom.randoms")
     ok, d = _randoms_shape(fn)
@@ -499,30 +541,46 @@ def r3_reservoir_index(ctx):
 
 
 def _randoms_shape(fn):
-    """out = self._randu; if diff != 1: out = map(diff.__mul__, out); if min != 0: out = map(min.__add__, out);
-    return list(islice(out, n)).  Each skipped map is the identity under its guard, so the element is min + diff*U."""
+    """out = self._randu; if diff != 1: out = map(diff.__mul__, out); if min != 0: out = map(min.__add__, out); out = list(islice(out, n));
+    if min != 0: out = [v if v < max else nextafter(max, min) for v in out]; return out.
+    Each skipped map is the identity under its guard, so the element is min + diff*U (reals: [min,max)); the last stage is the rounding guard."""
     d = {}
     DIFF = name_bound(fn, lambda v: unparse(v) == "max - min", "diff")
     OUT = name_bound(fn, lambda v: unparse(v) == "self._randu", "out")
     diff = assigned_value(fn, DIFF)
     d["diff"] = [unparse(v) for v in diff]
     ok = len(diff) == 1 and unparse(diff[0]) == "max - min"
-    outs = [x for x in walk_shallow(fn) if isinstance(x, ast.Assign) and unparse(x.targets[0]) == OUT]
-    shapes = []
+    outs = sorted([x for x in walk_shallow(fn) if isinstance(x, ast.Assign) and unparse(x.targets[0]) == OUT], key=lambda x: x.lineno)
+    stages = []
     for o in outs:
         g = [(unparse(t), p) for t, p in guards_of(o, fn)]
-        shapes.append((unparse(o.value), g))
-    d["out"] = shapes
-    want = {("self._randu", ()), (f"map({DIFF}.__mul__, {OUT})", ((f"{DIFF} != 1", True),)), (f"map(min.__add__, {OUT})", (("min != 0", True),))}
-    got = {(v, tuple(g)) for v, g in shapes}
-    ok = ok and got == want
-    # order: multiply before add
-    order = [v for v, _ in sorted(((unparse(o.value), o.lineno) for o in outs), key=lambda t: t[1])]
-    ok = ok and order == ["self._randu", f"map({DIFF}.__mul__, {OUT})", f"map(min.__add__, {OUT})"]
+        v = o.value
+        kind = None
+        if unparse(v) == "self._randu" and not g:
+            kind = "source"
+        elif unparse(v) == f"map({DIFF}.__mul__, {OUT})" and g == [(f"{DIFF} != 1", True)]:
+            kind = "scale"
+        elif unparse(v) == f"map(min.__add__, {OUT})" and g == [("min != 0", True)]:
+            kind = "shift"
+        elif unparse(v) in (f"list(islice({OUT}, n)) if n is not None else {OUT}", f"list(islice({OUT}, n))") and not g:
+            kind = "materialise"
+        elif isinstance(v, ast.ListComp) and unparse(v.generators[0].iter) == OUT and isinstance(v.elt, ast.IfExp) and isinstance(v.generators[0].target, ast.Name):
+            e, x = v.elt, v.generators[0].target.id
+            below = assigned_value(fn, e.orelse.id) if isinstance(e.orelse, ast.Name) else [e.orelse]
+            if unparse(e.body) == x and canon(unparse(e.test)) == canon(f"{x} < max") and len(below) == 1 and unparse(below[0]) in ("math.nextafter(max, min)", "nextafter(max, min)") \
+                    and any(canon(f"min != 0") in canon(t) and p for t, p in g):
+                kind = "round-guard"
+        stages.append((kind, unparse(v)[:70], g))
+    d["stages"] = stages
+    ok = ok and [k for k, *_ in stages] == ["source", "scale", "shift", "materialise", "round-guard"]
+    # float(min): the bound dunders min.__add__ / diff.__mul__ are float methods applied to the generator's floats (never NotImplemented)
+    mins = [x for x in walk_shallow(fn) if isinstance(x, ast.Assign) and unparse(x.targets[0]) == "min"]
+    d["min"] = [unparse(x.value) for x in mins]
+    ok = ok and len(mins) == 1 and unparse(mins[0].value) == "float(min)" and mins[0].lineno < diff[0].lineno if diff else False
     rets = [unparse(r.value) for r in walk_shallow(fn) if isinstance(r, ast.Return) and r.value is not None]
     d["return"] = rets
-    ok = ok and rets == [f"list(islice({OUT}, n)) if n is not None else {OUT}"]
-    # interval: min + (max-min)*[0,1) = [min, max)
+    ok = ok and rets == [OUT]
+    # interval: min + (max-min)*[0,1) = [min, max) over the reals; a rounded sum equal to max is replaced by the float below max
     return ok, d
 
 
@@ -694,6 +752,7 @@ def r6_generator_ownership(ctx, rule="C05.R6"):
 
 
 CONTROLS = [
+    ("weighted choice through the bound float.__lt__", RND, M.replace_expr("CobaRandom.choice", "partial(lt, next(self._randu) * tot)", "(next(self._randu) * tot).__lt__"), "C05.R3"),
     ("re-wrapping carries on with the inner wrapper's generator", "coba/safety.py", M.replace_expr("SafeLearner.__init__", "CobaRandom(seed)", "learner._rng if isinstance(learner, SafeLearner) else CobaRandom(seed)"), "C05.R6"),
     ("shuffle early return of the input", RND, M.replace_stmt("CobaRandom.shuffle", M.text_has("if n < 2"), "if n < 2:\n    return items"), "C05.R3"),
     ("reservoir index off by one", "coba/pipes/filters.py", M.replace_expr("Reservoir.filter", "int(r3 * count)", "int(r3 * count) + 1"), "C05.R3"),
@@ -702,7 +761,9 @@ CONTROLS = [
     ("choice index +1", RND, M.replace_expr("CobaRandom.choice", "int(len(seq) * next(self._randu))", "int(len(seq) * next(self._randu)) + 1"), "C05.R3"),
     ("shuffle range to 0", RND, M.replace_expr("CobaRandom.shuffle", "range(n, 1, -1)", "range(n, 0, -1)"), "C05.R3"),
     ("choicew mismatched weight", RND, M.replace_expr("CobaRandom.choicew", "(seq[i], weights[i])", "(seq[i], weights[0])"), "C05.R3"),
-    ("random max-min+1", RND, M.replace_expr("CobaRandom.random", "max - min", "max - min + 1"), "C05.R3"),
+    ("random without the rounding guard", RND, M.replace_stmt("CobaRandom.random", lambda st: isinstance(st, ast.Return), "return value"), "C05.R3"),
+    ("randoms without the rounding guard", RND, M.delete_stmt("CobaRandom.randoms", lambda st: isinstance(st, ast.If) and "nextafter" in ast.unparse(st)), "C05.R3"),
+    ("random scaled by max-min+1 and not cut off", RND, M.chain(M.replace_expr("CobaRandom.random", "max - min", "max - min + 1"), M.replace_stmt("CobaRandom.random", lambda st: isinstance(st, ast.Return), "return value")), "C05.R3"),
     ("second draw for prob", "coba/learners/utilities.py", M.replace_expr("PMFPredictor.predict",
         "self._pmfrng.choicew(actions, self._pmfcall(context, actions))",
         "(self._pmfrng.choicew(actions, self._pmfcall(context, actions))[0], self._pmfrng.choicew(actions, self._pmfcall(context, actions))[1])"), "C05.R4"),
